@@ -14,7 +14,8 @@ Section Mk.
   Variable ms : option (list bitcmd).
   Variable multi : N -> bool.
   Variable sdof : N -> dent.
-  Notation Lk := (Lk o ms multi sdof).
+  Variable S : Prop.
+  Notation Lk := (Lk o ms multi sdof S).
   Notation Inv := (Inv o).
   Notation touch := (touch o).
 
@@ -299,7 +300,7 @@ Section Mk.
   Qed.
 
   Definition same_rest (a b : cstate) : Prop :=
-    c_imap a = c_imap b /\ c_notifs a = c_notifs b /\ c_stale a = c_stale b.
+    c_imap a = c_imap b /\ c_notifs a = c_notifs b /\ c_split a = c_split b.
   Lemma same_rest_refl a : same_rest a a. Proof. repeat split. Qed.
   Lemma same_rest_trans a b c : same_rest a b -> same_rest b c -> same_rest a c.
   Proof. unfold same_rest. intuition congruence. Qed.
@@ -424,8 +425,8 @@ Section Mk.
           5:{ cbn [with_fs c_imap].
               eapply Lk_names_ext; [intro q; rewrite (fe_names _ _ Q1); reflexivity|].
               eapply Lk_ext; [exact EVx|].
-              eapply (Lk_upd o ms multi sdof fs1 _ _ _ T (xex d0 (KNew T) false) md).
-              - eapply (Lk_new o ms multi sdof (c_fs st1)); eauto.
+              eapply (Lk_upd o ms multi sdof S fs1 _ _ _ T (xex d0 (KNew T) false) md).
+              - eapply (Lk_new o ms multi sdof S (c_fs st1)); eauto.
               - reflexivity.
               - apply xupd_same.
               - discriminate.
